@@ -149,6 +149,18 @@ def gen_strings(tier):
             if s_ not in seen:
                 seen.add(s_)
                 yield s_
+    # real literals written without an exponent ("300.", "2.", ".5", "0.5"): a quotient of two of them, or of one of
+    # them and an integer literal, is a REAL quotient in Fortran and must stay one in C
+    for q in ("2./3.", "3./2", "1./2", "1/2.", "2./3", "5./2.", ".5/2", "300./100", "3.0/2", "1./3./2"):
+        for s_ in (q, f"({q})", f"{q}*Tgas", f"Tgas*({q})", f"Tgas**({q})", f"(Tgas/300.)**({q})", f"exp(-({q})*Tgas/100.)", f"foo+{q}", f"2d0*{q}"):
+            if s_ not in seen:
+                seen.add(s_)
+                yield s_
+    for lit in ("300.", "2.", ".5", "0.5", "10.", "1.50"):
+        for s_ in (lit, f"Tgas/{lit}", f"(Tgas/{lit})**0.5", f"{lit}*Tgas", f"exp(-{lit}/Tgas)", f"foo+{lit}", f"3/{lit}", f"{lit}/3"):
+            if s_ not in seen:
+                seen.add(s_)
+                yield s_
     # abundance references beyond one-letter species
     for lf in IDX_LEAVES:
         yield lf
